@@ -4,6 +4,7 @@
 //   - obfuscation.Obfuscator{MD5Hasher}.ObfuscateJSON             (cursor notation)
 //   - the HAR collector processor (NewProcessor/Execute)            ('$.request.body…' notation)
 //   - the diagnosis HAR generator plugin (GenerateHAR)              (cursor notation from policies.yaml)
+//
 // and decided leaf by leaf by the independent matcher of oracle_test.go.
 package c16
 
@@ -36,6 +37,7 @@ type bodyCase struct {
 	Exclusions []string `json:"exclusions"`
 	Output     string   `json:"output,omitempty"`
 	Side       string   `json:"side,omitempty"`
+	Transport  any      `json:"transport,omitempty"` // har-collector route: how the bodies travelled
 }
 
 func classify(r *ev.Recorder, doc *node, rs refSet, passed []string) {
